@@ -303,6 +303,8 @@ def _perm_arg(perm, form):
 
     if form == "ndarray":
         return np.array(perm, dtype=int)
+    if form in ("uint8", "uint64", "int8"):  # the permutation held in an array of another numeric dtype
+        return np.array(perm, dtype=form)
     if form == "tuple":
         return tuple(perm)
     return list(perm)
@@ -469,6 +471,10 @@ def _pm_objects(p):
     if form == "labels":  # distinct, non-contiguous, unsorted objects
         labs = random.Random(p.get("seed", 0)).sample(range(-50, 200), n)
         return (np.array(labs) if p.get("as_array") else list(labs)), labs
+    if form == "close-labels":  # distinct integer objects that are close in relative terms (an enumerator of objects compares them exactly)
+        base = 10**6 if p.get("seed", 0) % 2 == 0 else 2**40
+        labs = [base + k for k in random.Random(p.get("seed", 0)).sample(range(0, 3 * n), n)]
+        return (np.array(labs) if p.get("as_array") else list(labs)), labs
     if form == "float-labels":  # objects that are not integers (half-integers, exactly representable): an enumerator of "objects" must not coerce them
         labs = [x + 0.5 for x in random.Random(p.get("seed", 0)).sample(range(-20, 60), n)]
         return (np.array(labs) if p.get("as_array") else list(labs)), labs
@@ -634,7 +640,7 @@ def cases(tier, seed):
     # ---- perm_sign: every permutation of 1..6 elements, three argument forms; every ordered pair
     nmax = 7 if thorough else 6
     for n in range(1, nmax + 1):
-        for form in ("list", "ndarray", "tuple"):
+        for form in ("list", "ndarray", "tuple") + (("uint8", "uint64", "int8") if n <= 5 else ()):
             add("perm_sign.inversions", dict(n=n, form=form), "perm_sign/S_n/%s" % form, n >= 2)
         if n <= 5:
             add("perm_sign.multiplicative", dict(n=n, pairs="all"), "perm_sign/pairs", n >= 2)
@@ -659,7 +665,7 @@ def cases(tier, seed):
                 add("unique_perms.all_rearrangements", dict(elements=list(ms), presentation="tuple"), "unique_perms/tuple", rep)
     # ---- perfect_matchings: every even n in 2..10, four argument forms
     for n in range(2, (12 if thorough else 10) + 1, 2):
-        forms = [dict(n=n, form="int"), dict(n=n, form="list"), dict(n=n, form="ndarray"), dict(n=n, form="labels", seed=seed), dict(n=n, form="labels", seed=seed + 1, as_array=True), dict(n=n, form="float-labels", seed=seed), dict(n=n, form="float-labels", seed=seed + 1, as_array=True)]
+        forms = [dict(n=n, form="int"), dict(n=n, form="list"), dict(n=n, form="ndarray"), dict(n=n, form="labels", seed=seed), dict(n=n, form="labels", seed=seed + 1, as_array=True), dict(n=n, form="float-labels", seed=seed), dict(n=n, form="float-labels", seed=seed + 1, as_array=True), dict(n=n, form="close-labels", seed=seed), dict(n=n, form="close-labels", seed=seed + 1, as_array=True)]
         for q in forms:
             ic = "perfect_matchings/%s" % q["form"]
             add("perfect_matchings.valid_distinct", q, ic, n >= 4)
